@@ -4,8 +4,10 @@ import (
 	"fmt"
 	"os"
 	"regexp"
+	"runtime"
 	"sort"
 	"strings"
+	"sync"
 	"time"
 
 	"github.com/pentops/j5/internal/zzverif/simrt"
@@ -126,7 +128,84 @@ func installPermHook(permSeed uint64, refSalt uint64) {
 	})
 }
 
+// nativeFallback reports whether the instrumented code uses synchronisation the simulator does
+// not model. The harness then degrades, for this build, from deterministic scheduling to
+// ordinary goroutines: the race detector, the sequential-reference oracle and a deadlock
+// timeout still apply, but schedules are no longer chosen, recorded or exactly replayable.
+func nativeFallback() bool { return rewriteUnmodelled > 0 }
+
+// runNative executes the tasks as ordinary goroutines released together.
+func runNative(w *Workload, prep [][]*Prepared, warm []*Prepared, cfg RunCfg) *RunResult {
+	env := newEnv(w.Codec)
+	for _, p := range warm {
+		execOp(env, p)
+	}
+	res := &RunResult{Outcomes: make([][]Outcome, len(w.Tasks))}
+	simrt.SetPermHook(nil)
+	simrt.SetNativeMode(true)
+	defer simrt.SetNativeMode(false)
+	start := make(chan struct{})
+	done := make(chan struct{})
+	var wg sync.WaitGroup
+	rng := simrt.NewRng(cfg.Seed)
+	for t := range w.Tasks {
+		t := t
+		res.Outcomes[t] = make([]Outcome, len(w.Tasks[t]))
+		for i := range res.Outcomes[t] {
+			res.Outcomes[t][i] = Outcome{Class: "not_run"}
+		}
+		spins := rng.Intn(200) // seeded start skew
+		wg.Add(1)
+		go func() {
+			defer wg.Done()
+			<-start
+			for k := 0; k < spins; k++ {
+				runtime.Gosched()
+			}
+			for i, p := range prep[t] {
+				res.Outcomes[t][i] = execOp(env, p)
+			}
+		}()
+	}
+	go func() { wg.Wait(); close(done) }()
+	close(start)
+	select {
+	case <-done:
+	case <-time.After(15 * time.Second):
+		// nothing finished for 15 s of real time: a few small operations never take that long
+		buf := make([]byte, 1<<18)
+		n := runtime.Stack(buf, true)
+		res.Deadlock = true
+		res.StuckSite = "native mode: tasks did not finish within 15s\n" + trimBlocked(string(buf[:n]))
+		res.Outcomes = nil
+	}
+	res.Stats.Yields = 1
+	res.Race = newRaceReports()
+	return res
+}
+
+// trimBlocked keeps the goroutines of the dump that are blocked inside the code under test.
+func trimBlocked(dump string) string {
+	var keep []string
+	for _, g := range strings.Split(dump, "\n\n") {
+		if strings.Contains(g, "pentops/j5/") && (strings.Contains(g, "[chan ") || strings.Contains(g, "[sync.") || strings.Contains(g, "[semacquire") || strings.Contains(g, "[select")) {
+			lines := strings.Split(g, "\n")
+			if len(lines) > 14 {
+				lines = lines[:14]
+			}
+			keep = append(keep, strings.Join(lines, "\n"))
+		}
+		if len(keep) >= 4 {
+			break
+		}
+	}
+	return strings.Join(keep, "\n\n")
+}
+
 func runSim(w *Workload, prep [][]*Prepared, warm []*Prepared, cfg RunCfg, keepEvents bool) *RunResult {
+	if nativeFallback() {
+		return runNative(w, prep, warm, cfg)
+	}
 	env := newEnv(w.Codec)
 	for _, p := range warm {
 		execOp(env, p) // before any task exists: a real happens-before edge, as in main()
@@ -244,6 +323,25 @@ func runSequential(w *Workload, prep [][]*Prepared, warm []*Prepared, order [][2
 	for t := range w.Tasks {
 		out[t] = make([]Outcome, len(w.Tasks[t]))
 	}
+	if nativeFallback() {
+		finished := make(chan struct{})
+		go func() {
+			env := newEnv(w.Codec)
+			for _, p := range warm {
+				execOp(env, p)
+			}
+			for _, st := range order {
+				out[st[0]][st[1]] = execOp(env, prep[st[0]][st[1]])
+			}
+			close(finished)
+		}()
+		select {
+		case <-finished:
+			return out, false
+		case <-time.After(15 * time.Second):
+			return nil, true
+		}
+	}
 	sim := simrt.NewSim(1, simrt.Policy{Mode: "serial"})
 	simrt.SetPermHook(nil)
 	sim.Spawn("seq", func() {
@@ -319,8 +417,12 @@ func computeAdmissible(w *Workload, prep [][]*Prepared, warm []*Prepared, seed u
 		a.textStable[t] = make([]bool, len(w.Tasks[t]))
 		for i := range w.Tasks[t] {
 			a.seqClasses[t][i] = map[string]bool{}
-			// (i) alone, on a fresh private instance (cannot block: nothing was used before)
-			a.alone[t][i] = execOp(newEnv(w.Codec), prep[t][i])
+			// (i) alone, on a fresh private instance
+			t, i := t, i
+			if !callWithTimeout(func() { a.alone[t][i] = execOp(newEnv(w.Codec), prep[t][i]) }) {
+				a.SeqDeadlock = true
+				return a
+			}
 		}
 	}
 	// (i') alone again, in the reverse order: "alone" must not depend on what other fresh
@@ -340,7 +442,11 @@ func computeAdmissible(w *Workload, prep [][]*Prepared, warm []*Prepared, seed u
 				// text that survives is independent of iteration order
 				simrt.SetPermHook(reversed)
 			}
-			o := execOp(newEnv(w.Codec), prep[t][i])
+			var o Outcome
+			if !callWithTimeout(func() { o = execOp(newEnv(w.Codec), prep[t][i]) }) {
+				a.SeqDeadlock = true
+				return a
+			}
 			simrt.SetPermHook(nil)
 			a.textStable[t][i] = al.Class == "error" && o.Class == "error" && o.Text == al.Text
 			if o.Class != al.Class || (o.Class == "ok" && o.Canon != al.Canon) {
@@ -445,7 +551,11 @@ func judge(w *Workload, prep [][]*Prepared, warm []*Prepared, a *Admissible, res
 		}
 	}
 	if res.Deadlock {
-		out = append(out, &Violation{Class: "deadlock", Task: -1, Op: -1, Detail: "every live task is blocked on a lock or Once that nobody can release; last site " + res.StuckSite})
+		detail := "every live task is blocked on a lock or Once that nobody can release; last site " + res.StuckSite
+		if nativeFallback() {
+			detail = res.StuckSite
+		}
+		out = append(out, &Violation{Class: "deadlock", Task: -1, Op: -1, Detail: detail})
 		if race != nil {
 			out = append(out, race)
 		}
